@@ -23,7 +23,7 @@ from harness import core
 from harness import lib_c04 as lib
 from harness.core import to_dec
 
-VARIANTS_REJECTED = ['modes_elements', 'shomate_S', 'chemkin_Hact']
+VARIANTS_REJECTED = ['modes_elements', 'shomate_S', 'chemkin_Hact', 'shomate_native']
 VARIANTS_ACCEPTED = ['nasa_Cp']
 OPT_NAMES = ['P', 'x', 'S_elements', 'use_references', 'verbose', 'include_ZPE', 'rev', 'act', 'del_m']
 
@@ -181,7 +181,7 @@ def _safe_execute(job):
 # --------------------------------------------------------------------------
 def _cell_key(c, opts=None):
     return (c['cls'], c['form'], c['q'], c['state'], tuple(sorted(c['opts'] if opts is None else opts)),
-            c['shape'], c['tgiven'])
+            c['shape'], c['tgiven'], c['phase'], c['own'])
 
 
 def _unit_list(units, cell):
@@ -189,12 +189,15 @@ def _unit_list(units, cell):
     return units[key]
 
 
-def _pick_units(ulist, rnd, n_molar, n_mass):
-    molar = [u for u in ulist if u['per'] in ('mol', 'molecule')]
+def _pick_units(ulist, rnd, n_molar, n_mass, must):
+    forced = [u for u in ulist if u['ustr'] in must]
+    if len(forced) != len(must):
+        raise core.MachineryError('unit strings %r that TLC demands are not in the unit list' % (must,))
+    molar = [u for u in ulist if u['per'] in ('mol', 'molecule') and u['ustr'] not in must]
     mass = [u for u in ulist if u['per'] in ('g', 'kg')]
     rnd.shuffle(molar)
     rnd.shuffle(mass)
-    pick = molar[:n_molar] + mass[:n_mass]
+    pick = forced + molar[:n_molar - len(forced)] + mass[:n_mass]
     rnd.shuffle(pick)
     return pick
 
@@ -202,7 +205,7 @@ def _pick_units(ulist, rnd, n_molar, n_mass):
 def make_jobs(ctx, data):
     cells = data['cells']
     for c in cells:
-        for k in ('opts', 'kwD', 'kwT', 'relevant', 'sig'):
+        for k in ('opts', 'kwD', 'kwT', 'relevant', 'sig', 'must'):
             c[k] = sorted(c[k])
     index = {_cell_key(c): c for c in cells}
     cells.sort(key=_cell_key)
@@ -225,7 +228,7 @@ def make_jobs(ctx, data):
             seed = zlib.crc32(('%d|%d|%d' % (ctx.seed, ci, d)).encode())
             rnd = random.Random(seed)
             if ctx.quick:
-                us = _pick_units(list(ulist), rnd, 6, 4)
+                us = _pick_units(list(ulist), rnd, 6, 4, c['must'])
             else:
                 us = list(ulist)
                 rnd.shuffle(us)
@@ -236,7 +239,8 @@ def make_jobs(ctx, data):
 def _tags(cell, exc=''):
     t = {'cls': cell['cls'], 'kind': ('mode' if cell['ismode'] else cell['cls']),
          'form': cell['form'], 'q': cell['q'], 'getter': cell['getter'],
-         'opts': ','.join(cell['opts']), 'shape': cell['shape']}
+         'opts': ','.join(cell['opts']), 'shape': cell['shape'], 'phase': cell['phase'],
+         'own': cell['own']}
     for o in ('rev', 'P', 'x'):
         t['has_' + o] = o in cell['opts']
     if exc:
@@ -249,7 +253,8 @@ def run(ctx):
         'cells = every applicable (class, form, quantity, state, option subset, T shape, T given/defaulted) '
         'emitted by TLC from UnitsWrap.tla, each with the dimensionless twin and the keyword sets of both calls; '
         'every cell is instantiated with a random object (seeded) carrying the features the options need and is '
-        'asked in unit strings from TLC\'s list (quick: 6 molar/per-molecule + 4 per-mass per cell; thorough: all, '
+        'asked in unit strings from TLC\'s list (quick: 6 molar/per-molecule + 4 per-mass per cell, always including '
+        'the unit a Shomate polynomial is stored in; thorough: all, '
         '4 objects per cell); non-trivial: the twin returned a non-zero value; distinct by (cell, unit string)')
     if ctx.replay_case is not None:
         jobs = [ctx.replay_case['case']]
@@ -265,7 +270,7 @@ def run(ctx):
         if not r.ok:
             raise core.MachineryError('UnitsWrap design model failed:\n' + r.out[-3000:])
         # (D) wrappers of the pinned tree: three must be rejected, the harmless one accepted
-        with cf.ThreadPoolExecutor(max_workers=4) as ex:
+        with cf.ThreadPoolExecutor(max_workers=5) as ex:
             futs = {v: ex.submit(core.run_tlc, 'MC_UnitsWrap', 'MC_UnitsWrap_' + v, None, 4)
                     for v in VARIANTS_REJECTED + VARIANTS_ACCEPTED}
         for v, f in futs.items():
